@@ -4,7 +4,10 @@
   domain D on which the model is proved equal to it.  Written plainly, independently of
   MongoModel.Pipeline; expression values are the values of the C04 oracle `Spec.specEval`.
 
-    $group      the groups of `specGroups` (keys by first appearance; a missing key is null); the
+    $group      every output field must be `name: {accumulator: expression}` with one of the eight
+                accumulators below — a property of the stage, checked whether or not there is a
+                document (`accSpecsOk`); then
+                the groups of `specGroups` (keys by first appearance; a missing key is null); the
                 document of a group is `{_id: key, name: accumulator value, …}` in the order of the
                 specification; an accumulator folds the values its expression takes on the
                 group's documents in input order (missing = the expression has no value there):
@@ -19,9 +22,9 @@
                 gets `name: value` for each entry in order (an existing field keeps its place, a
                 new one is appended, a missing value leaves the document alone); a dotted name
                 writes into the sub-document it names, creating it — or putting it in the place
-                of a scalar — where needed (`setNested`; an ARRAY on the way is outside this
-                oracle: MongoDB writes into each of its elements); no name may be a prefix of
-                another one
+                of a scalar — where needed; through an ARRAY it writes into every item of the
+                array (an item that is no document becomes one, an array inside the array is
+                gone through) — `setDeepIn`; no name may be a prefix of another one
     $replaceRoot   the value of `newRoot`, which must be a document
     $facet      one document `{name: output of the sub-pipeline on the same input, …}`
 
@@ -101,6 +104,21 @@ def specAccFields : Fields → List Val → Option Fields
         | _, _ => none
       | _ => none
 
+/-- the accumulators the oracle speaks about -/
+def specAccNames : List String :=
+  ["$sum", "$avg", "$min", "$max", "$first", "$last", "$push", "$addToSet"]
+
+/-- every output field is `name: {accumulator: expression}` with one of the eight accumulators —
+    a property of the STAGE, whether or not there is a document to group (MongoDB refuses an
+    unknown accumulator when it parses the pipeline) -/
+def accSpecsOk : Fields → Bool
+  | [] => true
+  | (name, spec) :: rest =>
+    (name = "_id" ||
+      (match spec with
+       | .doc [(op, _)] => specAccNames.contains op
+       | _ => false)) && accSpecsOk rest
+
 /-- the documents paired with their group key (a missing key is null) -/
 def specKeyed (idExpr : Val) (docs : List Val) : Option (List (Val × Val)) :=
   mapOpt (fun d => (exprValue idExpr d).map (fun r => (r.getD .null, d))) docs
@@ -113,21 +131,25 @@ def specGroupDocs (options : Fields) (groups : List (Val × List Val)) : Option 
 def specGroupStage (opts : Val) (docs : List Val) : Option (List Val) :=
   match opts with
   | .doc options =>
-    match dget "_id" options with
-    | some idExpr => (specKeyed idExpr docs).bind (fun kds => specGroupDocs options (specGroups kds))
-    | none => none
+    if !(accSpecsOk options) then none
+    else
+      match dget "_id" options with
+      | some idExpr => (specKeyed idExpr docs).bind (fun kds => specGroupDocs options (specGroups kds))
+      | none => none
   | _ => none
 
 /-- … the same groups in ascending key order with `_id` written last -/
 def specGroupStageSorted (opts : Val) (docs : List Val) : Option (List Val) :=
   match opts with
   | .doc options =>
-    match dget "_id" options with
-    | some idExpr =>
-      (specKeyed idExpr docs).bind (fun kds =>
-        (specGroupDocs options (isort (fun a b => valLt a.1 b.1) (specGroups kds))).map
-          (fun out => out.map Spec.Proj.idLast))
-    | none => none
+    if !(accSpecsOk options) then none
+    else
+      match dget "_id" options with
+      | some idExpr =>
+        (specKeyed idExpr docs).bind (fun kds =>
+          (specGroupDocs options (isort (fun a b => valLt a.1 b.1) (specGroups kds))).map
+            (fun out => out.map Spec.Proj.idLast))
+      | none => none
   | _ => none
 
 /-! ### `$lookup` -/
@@ -156,26 +178,43 @@ def specLookupStage (db : Pipe.Db) (opts : Val) (docs : List Val) : Option (List
 def pathName (s : String) : Bool :=
   !s.toList.contains '$' && (splitDots s).all (· ≠ "")
 
-/-- an array stands on the way of the dotted name (strictly above its last component) -/
-def arrayOnPath : List String → Fields → Bool
-  | [], _ => false
-  | [_], _ => false
-  | k :: k' :: ks, fs =>
-    match dget k fs with
-    | some (.arr _) => true
-    | some (.doc g) => arrayOnPath (k' :: ks) g
-    | _ => false
+/-- the document `{k₁: {k₂: … v}}` -/
+def nestDoc : List String → Val → Val
+  | [], v => v
+  | k :: ks, v => .doc [(k, nestDoc ks v)]
+
+mutual
+  /-- `v` written at the dotted path `ks` below the value `x`: through a document into (or next
+      to) its field, through an array into every item, in the place of anything else -/
+  def setDeep : Val → List String → Val → Val
+    | _, [], v => v
+    | .arr xs, k :: ks, v => .arr (setDeepItems xs (k :: ks) v)
+    | .doc fs, k :: ks, v => .doc (setDeepIn fs k ks v)
+    | _, k :: ks, v => nestDoc (k :: ks) v
+  termination_by structural x _ _ => x
+
+  def setDeepItems : List Val → List String → Val → List Val
+    | [], _, _ => []
+    | x :: xs, ks, v => setDeep x ks v :: setDeepItems xs ks v
+  termination_by structural x _ _ => x
+
+  /-- the fields with `k.ks` set to `v`: an existing `k` keeps its place, a new one is appended -/
+  def setDeepIn : Fields → String → List String → Val → Fields
+    | [], k, ks, v => [(k, nestDoc ks v)]
+    | (k', x) :: r, k, ks, v =>
+      if k' = k then (k', setDeep x ks v) :: r else (k', x) :: setDeepIn r k ks v
+  termination_by structural x _ _ _ => x
+end
 
 /-- the entries applied to `acc`, every expression read on the input document `d` -/
 def specSetFields (d : Val) : Fields → Fields → Option Fields
   | [], acc => some acc
   | (name, e) :: rest, acc =>
-    match exprValue e d with
-    | some (some v) =>
-      if arrayOnPath (splitDots name) acc then none
-      else specSetFields d rest (setNested (splitDots name) v acc)
-    | some none => specSetFields d rest acc
-    | none => none
+    match exprValue e d, splitDots name with
+    | some (some v), k :: ks => specSetFields d rest (setDeepIn acc k ks v)
+    | some (some _), [] => none
+    | some none, _ => specSetFields d rest acc
+    | none, _ => none
 
 def specAddFieldsDoc (entries : Fields) : Val → Option Val
   | .doc fs => (specSetFields (.doc fs) entries fs).map Val.doc
@@ -349,7 +388,7 @@ def lookupReasons (db : Pipe.Db) (opts : Val) (docs : List Val) : List String :=
         let q := (dget lf fs).getD .null
         (if joinScalar q then [] else ["joinscope"]) ++ (if normalV q then [] else ["datenorm"]) ++
         (db.get fr).flatMap (fun f => match f with
-          | .doc gs => joinReasons q (dget ff gs)
+          | .doc gs => (if normalV f then [] else ["datenorm"]) ++ joinReasons q (dget ff gs)
           | _ => ["nondoc"])
       | _ => ["nondoc"])
   | none => ["nospec"]
